@@ -10,9 +10,11 @@ import (
 	"os"
 	"runtime"
 	"strconv"
+	"strings"
 	"sync"
 	"sync/atomic"
 
+	"github.com/AdguardTeam/urlfilter"
 	"github.com/AdguardTeam/urlfilter/filterlist"
 	"github.com/AdguardTeam/urlfilter/rules"
 
@@ -89,6 +91,56 @@ func main() {
 				}
 			}
 		}
+	}
+	// a working set beyond 2^16 distinct rules and modifier values (bounded
+	// process-wide tables fill up and start to evict only there): four
+	// goroutines with cold misses on different rules of one in-memory list,
+	// then of two lists
+	for _, nLists := range []int{1, 2} {
+		const big = 70000
+		var texts []string
+		for li := 0; li < nLists; li++ {
+			var sb strings.Builder
+			for i := li; i < big; i += nLists {
+				fmt.Fprintf(&sb, "||n%05d.big.test^$domain=d%05d.test|~x%05d.d%05d.test\n", i, i, i, i)
+			}
+			texts = append(texts, sb.String())
+		}
+		var ls []filterlist.RuleList
+		for li, t := range texts {
+			ls = append(ls, &filterlist.StringRuleList{ID: li + 1, RulesText: t})
+		}
+		st, err := filterlist.NewRuleStorage(ls)
+		if err != nil {
+			fmt.Println("harness error:", err)
+			os.Exit(2)
+		}
+		ne := urlfilter.NewNetworkEngine(st)
+		var wg sync.WaitGroup
+		var mu sync.Mutex
+		const workers, per = 4, 150
+		for w := 0; w < workers; w++ {
+			wg.Add(1)
+			go func() {
+				defer wg.Done()
+				for k := 0; k < per; k++ {
+					i := (k*workers+w)*97 % big
+					want := fmt.Sprintf("||n%05d.big.test^$domain=d%05d.test|~x%05d.d%05d.test", i, i, i, i)
+					got := ne.MatchAll(rules.NewRequest(fmt.Sprintf("http://n%05d.big.test/", i), fmt.Sprintf("http://d%05d.test/", i), rules.TypeScript))
+					if len(got) != 1 || got[0].RuleText != want {
+						mu.Lock()
+						if mismatches < 5 {
+							fmt.Printf("MISMATCH large-working-set lists=%d goroutines=%d: query %d returned %d rules, sequentially exactly %s\n", nLists, workers, i, len(got), want)
+						}
+						mismatches++
+						mu.Unlock()
+					}
+				}
+			}()
+		}
+		wg.Wait()
+		st.Close()
+		total += workers
 	}
 	fmt.Printf("racepass: %d goroutine bodies run, %d mismatches\n", total, mismatches)
 	if mismatches > 0 {
